@@ -1,6 +1,7 @@
 import TracklibVerif.Model.Split
 import TracklibVerif.Model.SplitVal
 import TracklibVerif.Model.SplitTrack
+import TracklibVerif.Model.SplitNum
 import TracklibVerif.Drv.Util
 /-! Driver handler for C11. Commands:
   split <markers as 0/1 string>   → `<pieces> <ids>`: pieces as lists of observation indices, `;`-separated
@@ -36,6 +37,9 @@ import TracklibVerif.Drv.Util
   segseqsplitv <x y z columns> <timestamps> <feature table> (<mode> <afs> <out> <thresholds>)+
                                   → `segseqv`, then `split(track, <out of the last call>)` on the resulting track:
                                     `<table> <pieces>`
+  markerp / segsplitp             → the same two on numbers with their Python type (`markersG` at `PNum`): `I<n>` a Python
+                                    int, `N<n>` a numpy.int64, `D<p/q>` a numpy.float64, anything else a Python float;
+                                    an integer against a float with a numpy scalar in the pair is converted to a double
 Values and thresholds are exact: a rational `p/q`, `inf`, `-inf`, and `nan` for a value.
 Feature NAMES are arbitrary strings: every character other than an ASCII letter, digit, `_`, `#` crosses the boundary
 as `%` followed by the four hexadecimal digits of its code point (`encName` / `decName`). -/
@@ -136,6 +140,16 @@ def segSeq (t : FTrack Ext) : List String → Option (Except String (FTrack Ext)
   | _ => none
 
 /-! ### values that may be timestamps -/
+/-- a number with its Python type: `I<n>`, `N<n>`, `D<value>`, `<value>` -/
+def pnum? (s : String) : Option PNum :=
+  if s.startsWith "I" then ((s.drop 1).toString.toInt?).map (fun n => ⟨.pyInt, .fin (n : Rat)⟩)
+  else if s.startsWith "N" then ((s.drop 1).toString.toInt?).map (fun n => ⟨.npInt, .fin (n : Rat)⟩)
+  else if s.startsWith "D" then (ext? (s.drop 1).toString).map (fun v => ⟨.npFloat, v⟩)
+  else (ext? s).map (fun v => ⟨.pyFloat, v⟩)
+def pnumList? (s : String) : Option (List PNum) := (splitTok s ',').mapM pnum?
+def rowsp? (rows : String) : Option (List (List (Option PNum))) :=
+  (splitTok rows ';').mapM (fun r => (splitTok r ',').mapM (fun s => if s == "nan" then some none else (pnum? s).map some))
+
 def stamp? (s : String) : Option TV.ObsTime.Stamp :=
   match (splitTok s '.').mapM String.toNat? with
   | some [y, mo, d, h, mi, sc, ms] => some ⟨⟨y, mo, d, h, mi, sc⟩, ms⟩
@@ -298,6 +312,16 @@ def handle (cmd : String) (args : List String) : String :=
         if mode == "and" || mode == "or" then
           match markersG Val.isnan Val.le? Val.fmax (mode == "and") th rs with
           | .ok bs => if c == "markerv" then showMarks bs else s!"{showMarks bs} {showPieces (splitIdx0 bs)}"
+          | .error e => "err:" ++ e
+        else "bad-request"
+      | _, _ => "bad-request"
+    else
+    if c == "markerp" || c == "segsplitp" then
+      match pnumList? ths, rowsp? rows with
+      | some th, some rs =>
+        if mode == "and" || mode == "or" then
+          match markersG PNum.isnan PNum.le? PNum.fmax (mode == "and") th rs with
+          | .ok bs => if c == "markerp" then showMarks bs else s!"{showMarks bs} {showPieces (splitIdx0 bs)}"
           | .error e => "err:" ++ e
         else "bad-request"
       | _, _ => "bad-request"
